@@ -238,6 +238,7 @@ where
                 }
                 let key = new_key(sender, &target);
                 let _key = key.clone();
+                let failed_key = key.clone();
                 // one datagram that cannot be forwarded (server unreachable, socket error, datagram too large) is dropped;
                 // it must not end the relay for every other local application
                 let forwarded: Result<()> = async {
@@ -267,6 +268,8 @@ where
                 .await;
                 if let Err(e) = forwarded {
                     error!("[udp] drop datagram that could not be forwarded; sender={}, error={}", sender, e);
+                    // a sink that failed keeps the datagram it could not send and fails again on every later one
+                    client_server_cache.remove(&failed_key);
                 }
             }
             else => break,
